@@ -355,7 +355,7 @@ func (c *Ctx) wf(v string, t types.Type, top string) string {
 		return "(and (<= (root " + v + ") " + top + ") (< (- 100000) (root " + v + ")) " + ty + ")"
 	case "Slice":
 		if sl, ok := t.Underlying().(*types.Slice); ok {
-			return fmt.Sprintf("(and (=> (not (= (sarr %s) nil)) (= (atype (sarr %s)) %d)) %s)", v, v, c.reg.ArrID(sl.Elem()), c.wfSliceBase(v, top))
+			return fmt.Sprintf("(and (=> (not (= (sarr %s) nil)) (= (atype (sarr %s)) %d)) (<= (scap %s) %s) %s)", v, v, c.reg.ArrID(sl.Elem()), v, existingCapLimit(sl.Elem()), c.wfSliceBase(v, top))
 		}
 		return c.wfSliceBase(v, top)
 	case "SliceBase":
@@ -528,3 +528,19 @@ func (c *Ctx) zeroArrayConst(elemSort, zero string) string {
 func (c *Ctx) wfSliceBase(v, top string) string {
 	return "(and (<= (root (sarr " + v + ")) " + top + ") (< (- 100000) (root (sarr " + v + "))) (<= 0 (soff " + v + ")) (<= 0 (slen " + v + ")) (<= (slen " + v + ") (scap " + v + ")) (<= (scap " + v + ") 4611686018427387904) (=> (= (sarr " + v + ") nil) (= " + v + " nil_slice)))"
 }
+
+var stdSizes = types.SizesFor("gc", "amd64")
+
+func elemSize(t types.Type) int64 {
+	defer func() { recover() }()
+	sz := stdSizes.Sizeof(t)
+	if sz < 1 {
+		return 1
+	}
+	return sz
+}
+
+// existingCapLimit: a slice that exists occupies at most 2^47 bytes; makeCapLimit: the Go runtime
+// refuses (panics on) allocations above 2^48 bytes on 64-bit platforms.
+func existingCapLimit(elem types.Type) string { return fmt.Sprint((int64(1) << 47) / elemSize(elem)) }
+func makeCapLimit(elem types.Type) string     { return fmt.Sprint((int64(1) << 48) / elemSize(elem)) }
